@@ -11,6 +11,8 @@
    lib_b58_dec fold s 0 = change_base(s, 58, 256) and, read as bytes, change_base(s, 58, 16): the hex form is
    the even-padded digits of the same number behind two '0' characters per leading '1').
 
+   The model follows the tree after the C11 repairs (Key() refuses a WIF whose key part is not 32 bytes; HDKey()
+   and HDKey.from_wif check length 82 and the checksum; Base58 has no lower-casing retry: [fold] = false).
    [wifcheck] selects how the WIF branches decide "compressed":
      false = the code before fixes/C12-1 (last payload byte == 01, whatever the length)
      true  = the repaired code (payload longer than version + 32 bytes and last byte == 01).
@@ -305,9 +307,10 @@ Definition key_private_part (k : key_input) (f : kformat) (compressed : bool) : 
           if negb (b58_checksum_ok key check) then Err EKey
           else match lib_networks_by_wif (firstn 1 key) with
                | [] => Err EKey
-               | _ => if wif_payload_compressed key
-                      then Ok (skipn 1 (droplast 1 key), true)
-                      else Ok (skipn 1 key, false)
+               | _ => let '(kb, c) := if wif_payload_compressed key
+                                      then (skipn 1 (droplast 1 key), true)
+                                      else (skipn 1 key, false) in
+                      if Nat.eqb (length kb) 32 then Ok (kb, c) else Err EKey
                end
       end
   | FWifProtected, _ => Err EUnmodelled
@@ -401,6 +404,8 @@ Definition lib_hdkey_import (k : key_input) (hint : option str) (wt : option str
                 match b58_bytes (match k with KStr s => s | _ => [] end) with
                 | None => Err EOther
                 | Some bkey =>
+                    if negb (Nat.eqb (length bkey) 82 && b58_checksum_ok (droplast 4 bkey) (lastn 4 bkey)) then Err EKey
+                    else
                     match xkey_fields bkey with
                     | None => Err EOther
                     | Some (pub, key, depth, fp, child, chain) =>
@@ -430,6 +435,7 @@ Definition lib_hdkey_from_wif (s : bytes) (hint : option str) (ms : option bool)
   | None => Err EOther
   | Some bkey =>
       if negb (Nat.eqb (length bkey) 82) then Err EKey
+      else if negb (b58_checksum_ok (droplast 4 bkey) (lastn 4 bkey)) then Err EKey
       else
         match xkey_fields bkey with
         | None => Err EOther
